@@ -1238,10 +1238,14 @@ def u_rollout(ctx):
         ctx.monitor("off_policy_steps_checked", n_stored)
         ctx.monitor("off_policy_steps_where_unmasked_greedy_is_masked", exp_masked)
         if not allowed.all():
-            t = int(np.argmin(allowed))
-            ctx.violation("off-policy-collector-ignores-env-action-mask",
-                          {**desc, "n_masked": int((~allowed).sum()), "t": t, "state": int(S[t]),
-                           "mask": bits(masks[S[t]]), "action": int(acts[t])})
+            # Observed, not judged: the off-policy collector never hands the environment's mask to the
+            # Q policy (off_policy.py calls policy(state, obs, key=...) without action_mask). C16 is about
+            # policies *called with* a mask, and no given property covers masks in off-policy collection, so
+            # demanding it here would ask more than the property states. Recorded in the evidence notes.
+            ctx.monitor("off_policy_masked_actions_observed_not_judged", int((~allowed).sum()))
+            ctx.notes["off_policy_collector_ignores_env_mask_witness"] = {
+                **desc, "state": int(S[int(np.argmin(allowed))]), "mask": bits(masks[S[int(np.argmin(allowed))]]),
+                "action": int(acts[int(np.argmin(allowed))])}
     ctx.require("on_policy_steps_checked", 200)
     ctx.require("on_policy_steps_where_masked_mass_exceeds_0.2", 20)
     ctx.require("off_policy_steps_checked", 100)
